@@ -2,10 +2,12 @@ module verif/harness
 
 go 1.25
 
-require github.com/ohler55/slip v0.0.0
+require (
+	github.com/ohler55/ojg v1.27.0
+	github.com/ohler55/slip v0.0.0
+)
 
 require (
-	github.com/ohler55/ojg v1.27.0 // indirect
 	golang.org/x/sys v0.35.0 // indirect
 	golang.org/x/term v0.34.0 // indirect
 	golang.org/x/text v0.28.0 // indirect
